@@ -26,16 +26,30 @@ type stream[REQ any, RES any] struct {
 	// this is where engine -> plugin outputs are logged, so that whatever the engine does next is
 	// logged after them (logging in the receiving goroutine would leave a window).
 	onSent func(REQ)
+	// recvErr, once set, makes every client-side Recv fail with it while Sends keep working
+	// (a plugin that reports a read error but still takes acknowledgments)
+	recvErr   error
+	recvErrCh chan struct{}
 }
 
 var errSendInjected = errors.New("verif: injected transient stream send failure")
 
 func newStream[REQ any, RES any](ctx context.Context) *stream[REQ, RES] {
 	return &stream[REQ, RES]{
-		ctx:      ctx,
-		reqChan:  make(chan REQ),
-		respChan: make(chan RES),
-		stopChan: make(chan struct{}),
+		ctx:       ctx,
+		reqChan:   make(chan REQ),
+		respChan:  make(chan RES),
+		stopChan:  make(chan struct{}),
+		recvErrCh: make(chan struct{}),
+	}
+}
+
+func (s *stream[REQ, RES]) failRecv(err error) {
+	s.m.Lock()
+	defer s.m.Unlock()
+	if s.recvErr == nil {
+		s.recvErr = err
+		close(s.recvErrCh)
 	}
 }
 
@@ -84,6 +98,10 @@ func (s *stream[REQ, RES]) clientRecv() (RES, error) {
 		s.m.Lock()
 		defer s.m.Unlock()
 		return zero, s.reason
+	case <-s.recvErrCh:
+		s.m.Lock()
+		defer s.m.Unlock()
+		return zero, s.recvErr
 	case resp := <-s.respChan:
 		return resp, nil
 	}
